@@ -190,12 +190,71 @@ func cmdC01Streams(o opts) {
 	rec.Close()
 }
 
+// rewriteRecords: frames that carry DECODED messages are written through one writer, one after the other; the same frame
+// objects are then written through a second writer, and through the first one again. What the caller's frames say must not
+// depend on what any writer did in between: the three outputs are the same bytes (REWRITE records).
+func rewriteRecords(rec *Rec, r *rand.Rand, n int) {
+	all := findDialect("allplus")
+	drw := mustRW(all)
+	for k := 0; k < n; k++ {
+		var frames []frame.Frame
+		cnt := 2 + r.Intn(6)
+		for i := 0; i < cnt; i++ {
+			m := all.Messages[r.Intn(len(all.Messages))]
+			msg := newMsg(m, randVals(r, shapes(defOf(m)), true))
+			v := 1 + r.Intn(2)
+			if m.GetID() > 255 {
+				v = 2
+			}
+			j := mkFrame(r, v, v == 2 && r.Intn(3) == 0, 0)
+			fr := j.toGo()
+			switch f := fr.(type) {
+			case *frame.V1Frame:
+				f.Message = msg
+			case *frame.V2Frame:
+				f.Message = msg
+			}
+			frames = append(frames, fr)
+		}
+		outs := make([]B, 3)
+		pan := false
+		ws := []*frame.Writer{{DialectRW: drw}, {DialectRW: drw}}
+		sinks := []*recWriter{{}, {}}
+		for i, w := range ws {
+			w.ByteWriter = sinks[i]
+			if err := w.Initialize(); err != nil {
+				fatal("writer init: %v", err)
+			}
+		}
+		for pass, wi := range []int{0, 1, 0} {
+			before := sinks[wi].buf.Len()
+			for _, fr := range frames {
+				func() {
+					defer func() {
+						if x := recover(); x != nil {
+							pan = true
+						}
+					}()
+					ws[wi].Write(fr) //nolint:errcheck
+				}()
+			}
+			outs[pass] = B(append([]byte{}, sinks[wi].buf.Bytes()[before:]...))
+		}
+		rec.Put(M{"e": "REWRITE", "frames": cnt, "out1": outs[0], "out2": outs[1], "out3": outs[2], "panic": pan})
+	}
+}
+
 func init() { cmds["c01s"] = cmdC01Streams }
 
 func cmdC01(o opts) {
 	rec := newRec(o.out)
 	r := rand.New(rand.NewSource(o.seed))
 	thorough := o.tier == "thorough"
+	if thorough {
+		rewriteRecords(rec, rand.New(rand.NewSource(o.seed+99)), 300)
+	} else {
+		rewriteRecords(rec, rand.New(rand.NewSource(o.seed+99)), 40)
+	}
 
 	// a dialect that lacks every id we use (ids >= 2 are absent): pass-through
 	missRW := &dialect.ReadWriter{Dialect: &dialect.Dialect{Version: 3}}
